@@ -589,6 +589,7 @@ def _object_history(ctx, rid, repo):
             ctx.violated(rid, wsc.methods["__init__"], "two workspaces with a common channel name in one process", "after a second workspace with the same channel name was built, one of the two objects reports the OTHER one's observations / measurement names / data: per-object state lives in a container shared by all Workspace objects (a class-level attribute written through self, a module-level table ...)", expected=f"left {want_l}; right {want_r}", found=f"left {s_l}; right {s_r}")
             return
         ctx.holds(rid, f"{WS}::Workspace [second object with the same channel name, same process]", "both objects keep their own observations, measurement names and data")
+        model_history(ctx, rid, repo, w, wsc, left, show)
         before = (_copy.deepcopy(show(left.attrs.get("__payload__"))), _copy.deepcopy(show(right.attrs.get("__payload__"))))
         comb = w.call_func(wsc.methods["combine"], [PyFunc(lambda a, k: w.new(wsc, a, k), "Workspace"), left, right], {"join": "left outer", "validate": False})
         s_c = state(comb) if isinstance(comb, Instance) else None
@@ -604,6 +605,99 @@ def _object_history(ctx, rid, repo):
         ctx.violated(rid, wsc, "Workspace object history", f"raises {e.exc_name} on well-formed workspaces")
     except errs as e:
         ctx.unrecognised(rid, wsc, "Workspace object history", f"not interpretable: {type(e).__name__}: {e}")
+
+
+def model_history(ctx, rid, repo, w=None, wsc=None, ws=None, show=None):
+    """Workspace.model() on ONE workspace object: default POI, a POI override, a POI-less request, then the default again --
+    with Model as a recorder: every call hands Model the specification and options of THAT call, and the workspace's own
+    payload is the same before and after (shared by C16.R7, C12.R12 and C20.R8)."""
+    import copy as _copy
+    from ..alg import PyFunc, RaisedInFragment, Undecided, to_poly
+    from ..objmodel import World, dict_base
+    at = Poly.atom
+    errs = (Undecided, KeyError, TypeError, ValueError, IndexError, AttributeError)
+    if w is None:
+        try:
+            w, wsc, ws, show = _one_workspace(repo)
+        except RaisedInFragment as e:
+            ctx.violated(rid, repo.cls(WS, "Workspace"), "Workspace construction", f"raises {e.exc_name} on a well-formed workspace")
+            return
+        except errs as e:
+            ctx.unrecognised(rid, repo.cls(WS, "Workspace"), "Workspace construction", f"not interpretable: {type(e).__name__}: {e}")
+            return
+    mm = wsc.methods["model"]
+    ctx.touch(mm)
+    calls = []
+    w.base["Model"] = lambda a, k: (calls.append((a[0] if a else None, dict(k))) or Obj("MODEL"))
+    w.base["validate"] = lambda a, k: None
+    w.ext = None
+    _model_history_body(ctx, rid, w, ws, mm, calls, show, errs)
+
+
+def _one_workspace(repo):
+    from ..alg import to_poly
+    from ..objmodel import World, dict_base
+    at = Poly.atom
+    if True:
+        wsc = repo.cls(WS, "Workspace")
+        mix = repo.cls("src/pyhf/mixins.py", "_ChannelSummaryMixin")
+        w = World({"__strict__": True, "deepcopy": lambda a, k: _deep(a[0])}, module_env={"log": Obj("log"), "schema": Obj("schema"), "exceptions": Obj("exceptions"), "copy": Obj("copy"), "jsonpatch": Obj("jsonpatch")})
+        w.add_foreign_base("dict", dict_base())
+        w.add_class(mix).add_class(wsc)
+        for q, f_ in repo.module(WS).funcs.items():
+            if "." not in q and q != "__dir__":
+                w.add_func(f_)
+        spec = {"channels": [{"name": "SR", "samples": [{"name": "bkg", "data": [at("b0"), at("b1")], "modifiers": [{"name": "mu", "type": "normfactor", "data": None}, {"name": "other", "type": "normfactor", "data": None}]}]}],
+                "observations": [{"name": "SR", "data": [at("o0"), at("o1")]}],
+                "measurements": [{"name": "left_measurement", "config": {"poi": "mu", "parameters": [{"name": "mu", "bounds": [[at("lo"), at("hi")]]}]}}], "version": "1.0.0"}
+        ws = w.new(wsc, [spec], {"validate": False})
+
+        def show(v):
+            if isinstance(v, (list, tuple)):
+                return [show(x) for x in v]
+            if isinstance(v, dict):
+                return {k: show(x) for k, x in v.items()}
+            return v if v is None or isinstance(v, (str, bool)) else str(to_poly(v))
+    return w, wsc, ws, show
+
+
+def _model_history_body(ctx, rid, w, ws, mm, calls, show, errs):
+    import copy as _copy
+    from ..alg import RaisedInFragment
+    try:
+        payload0 = _copy.deepcopy(show(ws.attrs.get("__payload__")))
+        default_poi = ws.attrs["__payload__"]["measurements"][0]["config"]["poi"]
+        plan = [("first call, the measurement's POI", {}, default_poi), ("second call, poi_name='other'", {"poi_name": "other"}, "other"),
+                ("third call, the measurement's POI again", {}, default_poi), ("fourth call, poi_name=None (a POI-less model)", {"poi_name": None}, None),
+                ("fifth call, the measurement's POI again", {}, default_poi)]
+        bad = None
+        for lab, kw, want_poi in plan:
+            n0 = len(calls)
+            w.call_method(ws, "model", [], dict(kw))
+            if len(calls) != n0 + 1:
+                bad = f"{lab}: Model is constructed {len(calls) - n0} times"
+                break
+            mspec, mkw = calls[-1]
+            if mkw.get("poi_name", "<absent>") != want_poi:
+                bad = f"{lab}: the model is built with poi_name={mkw.get('poi_name', '<absent>')!r}; this call asks for {want_poi!r}"
+                break
+            if show(mspec.get("channels") if isinstance(mspec, dict) else None) != payload0.get("channels") or show(mspec.get("parameters")) != payload0["measurements"][0]["config"]["parameters"]:
+                bad = f"{lab}: the specification handed to Model is not the workspace's channels and the measurement's parameter settings"
+                break
+            if show(ws.attrs.get("__payload__")) != payload0:
+                bad = f"{lab}: the call changed the workspace itself (what it stores for the measurement): a later call, or json.dumps(workspace), sees the option of THIS call"
+                break
+        if bad:
+            ctx.violated(rid, mm, "Workspace.model() history on one workspace object", bad, expected="every call: Model(channels, measurement parameters, the POI this call asks for); workspace payload unchanged", found=bad)
+        else:
+            ctx.holds(rid, f"{WS}::Workspace.model [5 calls on one object: default POI, override, default, POI-less, default]", "each call builds from this call's options; the workspace payload is unchanged")
+    except RaisedInFragment as e:
+        ctx.violated(rid, mm, "Workspace.model() history", f"raises {e.exc_name} on a well-formed workspace")
+    except errs as e:
+        ctx.unrecognised(rid, mm, "Workspace.model() history", f"not interpretable: {type(e).__name__}: {e}")
+    finally:
+        w.base.pop("Model", None)
+        w.ext = None
 
 
 def _attr(w, obj, name):
